@@ -52,27 +52,32 @@ static void denot (struct yaep_tree_node *n, struct tl *out, int total)
 static int in_list (struct tl *l, const char *s) { int i; for (i = 0; i < l->n; i++) if (strcmp (l->s[i], s) == 0) return 1; return 0; }
 static long cases, bad; static int shown;
 static void fail (const char *what, int la, int one) { bad++; if (shown++ < 4) fprintf (stderr, "COST VIOLATION (%s) lookahead=%d one_parse=%d input length %d for:\n%s", what, la, one, ntok, text); }
+/* caller-supplied parse_alloc WITHOUT parse_free (a documented configuration): the blocks are collected here and released after the case */
+struct blk { struct blk *next; }; static struct blk *blks;
+static void *pa (int n) { struct blk *b = malloc (sizeof (struct blk) + 8 + (n > 0 ? n : 1)); b->next = blks; blks = b; memset ((char *) b + 16, 0x5a, n > 0 ? n : 1); return (char *) b + 16; }
+static void pa_release (void) { while (blks != NULL) { struct blk *b = blks; blks = b->next; free (b); } }
 static void one_case (void)
 {
-  struct grammar *g = yaep_create_grammar (); struct yaep_tree_node *r0 = NULL, *r = NULL; struct tl T0 = {0, NULL, NULL}, T = {0, NULL, NULL}; int amb, rc, i, m, la, one, nmin;
+  struct grammar *g = yaep_create_grammar (); struct yaep_tree_node *r0 = NULL, *r = NULL; struct tl T0 = {0, NULL, NULL}, T = {0, NULL, NULL}; int amb, rc, i, m, m2, la, one, nmin;
   if (yaep_parse_grammar (g, 0, text) != 0) { fprintf (stderr, "family description rejected: %s\n%s", yaep_error_message (g), text); bad++; yaep_free_grammar (g); return; }
   yaep_set_one_parse_flag (g, 0); yaep_set_cost_flag (g, 0); pos = 0; nerr = 0;
   rc = yaep_parse (g, rd, er, NULL, NULL, &r0, &amb);
   if (rc != 0 || nerr != 0 || r0 == NULL) { fail ("the input of the family is not parsed", 1, 0); yaep_free_grammar (g); return; }
   fields_ok = 1; denot (r0, &T0, 0); if (!fields_ok) fail ("without the cost flag a cost field is not the rule's own cost", 1, 0);
   for (m = T0.c[0], i = 1; i < T0.n; i++) if (T0.c[i] < m) m = T0.c[i];
-  for (la = 0; la <= 2; la++) for (one = 0; one < 2; one++)
+  for (la = 0; la <= 2; la++) for (m2 = 0; m2 < 4; m2++)
     {
+      int own = m2 >> 1; one = m2 & 1;
       yaep_set_lookahead_level (g, la); yaep_set_one_parse_flag (g, one); yaep_set_cost_flag (g, 1); pos = 0; nerr = 0; r = NULL; cases++;
-      rc = yaep_parse (g, rd, er, NULL, NULL, &r, &amb);
-      if (rc != 0 || nerr != 0 || r == NULL) { fail ("no result with the cost flag", la, one); continue; }
+      rc = own ? yaep_parse (g, rd, er, pa, NULL, &r, &amb) : yaep_parse (g, rd, er, NULL, NULL, &r, &amb);
+      if (rc != 0 || nerr != 0 || r == NULL) { fail ("no result with the cost flag", la, one); pa_release (); continue; }
       fields_ok = 1; has_alt = 0; T.n = 0; denot (r, &T, 1);
       if (!fields_ok) fail ("a cost field is not own cost + cost fields of the children", la, one);
       if (field_of (r) != m) fail ("the root's cost is not the minimum over all translations", la, one);
       for (i = 0; i < T.n; i++) if (T.c[i] != m || !in_list (&T0, T.s[i])) { fail ("the result denotes a translation that is not minimal (or not a translation at all)", la, one); break; }
       if (one) { if (has_alt || T.n != 1) fail ("one parse requested: more than one translation denoted", la, one); }
       else { for (nmin = 0, i = 0; i < T0.n; i++) if (T0.c[i] == m && !in_list (&T, T0.s[i])) { fail ("a minimal translation is missing from the all-parses result", la, one); break; } }
-      tl_free (&T); yaep_free_tree (r, NULL, NULL);
+      tl_free (&T); if (own) pa_release (); else yaep_free_tree (r, NULL, NULL);
     }
   tl_free (&T0); yaep_free_tree (r0, NULL, NULL); yaep_free_grammar (g);
 }
@@ -102,7 +107,22 @@ int main (void)
           sprintf (text, "S : U # p %d (0) | V # q %d (0) ;\nU : 'a' 'a' # u %d (0 1) ;\nV : 'a' W # v %d (0 1) ;\nW : 'a' # 0 | 'a' # - ;\n", c1, c2, c3, c4); ntok = 2; one_case (); }
     }
   n = 0; (void) n;
+  {
+    /* F6 (reported by an independent sub-agent, third round): an ALT list shared between an abstract node and its copy (copy_anode copies the children filled in so far).
+       Own CASE line: on the pinned tree the second parent sees the list already cut by the first visit (known finding F39). */
+    static const int in6[] = {'b', 'b', 'b', 'd'}; long cases0 = cases, bad0 = bad; int shown0 = shown;
+    toks = in6;
+    for (c1 = 0; c1 <= CMAX; c1++) for (c2 = 0; c2 <= CMAX; c2++) for (c3 = 0; c3 <= CMAX; c3++)
+      {
+        nnc = 0; nc ("top", 1); nc ("x", 0); nc ("y", 0); nc ("v", 0); nc ("w", 0); nc ("p", c1); nc ("q", c2); nc ("r", c3);
+        sprintf (text, "S : B C D # top 1 (0 1 2) ;\nB : 'b' # x 0 (0) | 'b' 'b' # y 0 (0 1) ;\nC : 'b' # v 0 (0) | 'b' 'b' # w 0 (0 1) ;\nD : 'd' # p %d (0) | 'd' # q %d (0) | 'd' # r %d (0) ;\n", c1, c2, c3);
+        ntok = 4; one_case ();
+      }
+    printf ("CASE shared_alt_list %ld %s S : B C D with B, C ambiguous over b^3 and three priced alternatives for D (costs 0..%d): both minimal splits of b^3 are denoted (all parses), fields add up\n",
+            cases - cases0, bad > bad0 ? "FAIL" : "OK", CMAX);
+    cases = cases0; { long b6 = bad - bad0; bad = bad0; shown = shown0; toks = in; if (b6) n = 1; }
+  }
   printf ("CASE minimal_cost_translations %ld %s with the cost flag the result denotes exactly the minimal-cost translations (all parses) / one of them (one parse), cost fields add up, the root carries the minimum; "
           "without it the fields are the rules' own costs (five ambiguous families, costs 0..%d in every combination, inputs of <= 4 tokens, lookahead 0..2)\n", cases, bad ? "FAIL" : "OK", CMAX);
-  return bad != 0;
+  return bad != 0 || n != 0;
 }
